@@ -38,5 +38,7 @@ SEEDED = [
     ("C14-7", "C14-JPEG"),
     ("C14-8", "C14-JPEG"),
     ("C14-9", "C14-TYPE"),
+    ("C14-10", "C14-TYPE"),
+    ("C14-11", "C14-TYPE"),
 ]
 MUTANTS = list(MUTANTS) + [_P("seed-" + sid, _os.path.join(_SEEDS, sid, "patch.diff"), rule) for sid, rule in SEEDED if _os.path.exists(_os.path.join(_SEEDS, sid, "patch.diff"))]
